@@ -2,6 +2,7 @@
 from __future__ import annotations
 
 import datetime as dt
+import re
 import shutil
 import sys
 from pathlib import Path
@@ -63,14 +64,26 @@ def one_query_dir(ctx, res, rng, k):
     if zdir.exists():
         shutil.rmtree(zdir)
     zdir.mkdir(parents=True)
-    G.write_dir(zdir, G.gen_dir(rng, npages=(2, 3), sections=False))
+    files = G.gen_dir(rng, npages=(2, 3), sections=False)
+    # every fourth directory: a note copied (with its ZID) to another page and edited there - the same ZID on two pages is a legal
+    # index content, and an ungrouped selection brings both notes onto one page
+    dup = False
+    if k % 4 == 1 and len(files) >= 2:
+        a, b = sorted(files)[:2]
+        cands = [l for l in files[a].split("\n") if re.match(r"^[-ox~<>] (P\d )?(\d{6} )?\d{6}#\w\w\w? ", l)]
+        if cands:
+            files[b] = files[b].rstrip("\n") + "\n\n" + cands[len(cands) // 2] + " (copied and edited)\n"
+            dup = True
+    G.write_dir(zdir, files)
     Z.clear_engine_cache()
     with freeze_time(dt.datetime(*TODAY, 12, 0)):
         rc, _, _ = Z.zorg_main(zdir, "db", "create", config=cfg)
         if rc != 0:
             return None
         url = f"sqlite:///{zdir}/.zorg/zorg.db"
-        rows = {r["zid"]: r for r in G.dump_index(zdir)}
+        all_rows = G.dump_index(zdir)
+        rows = {r["zid"]: r for r in all_rows}
+        res.count("dir_with_zid_on_two_pages" if dup else "dir_with_distinct_zids")
         if k % 2 == 0:
             # notes edited and stamped on three later days (multi-line ones every day): what the selector prints must still
             # compile to the notes as they are written in the files
@@ -85,7 +98,8 @@ def one_query_dir(ctx, res, rng, k):
                     (zdir / rel).write_text("\n".join(ls))
                 if w.run("db", "reindex") != 0:
                     return None
-            rows = {r["zid"]: r for r in G.dump_index(zdir)}
+            all_rows = G.dump_index(zdir)
+            rows = {r["zid"]: r for r in all_rows}
         written = {}
         for pth in sorted(zdir.rglob("*.zo")):
             if ".zorg" not in pth.parts:
@@ -99,7 +113,7 @@ def one_query_dir(ctx, res, rng, k):
 
         with SQLSession(zdir, url) as session:
             moved_texts = []
-            for zid, r in rows.items():
+            for zid, r in ({} if dup else rows).items():
                 n = session.repo.get_note_by_zid(zid)
                 if n is not None:
                     moved_texts.append((zid, note_utils._add_hidden_metadata(n).to_string()))
@@ -129,9 +143,15 @@ def one_query_dir(ctx, res, rng, k):
                     res.failures.append(C.Failure(f"{label} is not a valid page", {"query": q, "text": text[:2000], "kind": "invalid_page"}))
                     break
                 got = sorted(n["zid"] or "" for n in back["notes"])
-                if got != sorted(rows):
+                if got != sorted(r["zid"] for r in all_rows):
                     res.failures.append(C.Failure(f"{label}: compiled notes {got[:5]} are not the selected notes {sorted(rows)[:5]}", {"query": q, "text": text[:2000]}))
                     break
+                if dup:
+                    gb, wb = sorted((n["zid"], n["body"], n["kind"]) for n in back["notes"]), sorted((r["zid"], r["body"], r["kind"]) for r in all_rows)
+                    if gb != wb:
+                        res.failures.append(C.Failure(f"{label}: compiled notes differ from the selected notes: {[x for x in gb if x not in wb][:2]} vs {[x for x in wb if x not in gb][:2]}", {"query": q, "kind": "dup_zid"}))
+                        break
+                    continue
                 for n in back["notes"]:
                     r = rows[n["zid"]]
                     if n["body"] != r["body"] or n["kind"] != r["kind"]:
@@ -231,7 +251,7 @@ def classify(f: C.Failure, entry: dict) -> bool:
 RULE = (
     "every note compiled from C01's generated pages (all kinds, priorities, identity shapes, multi-line, 55 word forms) is rendered with "
     "Note.to_string(), the renderings are placed under a page header in original and shuffled order and compiled again; also swog.execute "
-    "'S note … G none' under 6 orderings and refresh_zoq_file pages on indexed directories; non-trivial = distinct rendered page with notes"
+    "'S note … G none' under 6 orderings and refresh_zoq_file pages on indexed directories (every second one with notes stamped on three later days, every fourth one with a note copied with its ZID to another page); non-trivial = distinct rendered page with notes"
 )
 ASSUME = ["compile correspondence of C01 for the second compilation"]
 
